@@ -39,7 +39,9 @@ var relSeps = []string{" ", " ", "  ", "\t", "\n", "\f", "\r", " ", " ", "\u00a0
 var hrefPool = []string{"http://example.com/", "https://a.b/c", "//cdn.x/y", "/local", "rel.html", "#f", "mailto:a@b.c", "http:/x", "http:evil.com", "javascript:alert(1)", "http://user@/p",
 	"HTTP://EXAMPLE.COM", "http://[::1]/", "https://h:8080/", "http:\\\\evil.com", "?q=http://x/", "http://é.com/", " http://padded.example/ ", "//", "///x", "http://",
 	// encoded slashes plus a character net/url re-encodes: re-serialisation may turn a local path into a host
-	"/%2Fevil.com/^", "/%2fevil.com/\u00e9", "%2F%2Fevil.com/|", "http:/%2Fevil.com/^", "/%2Fevil.com\"", "/%2F/evil.com/{}", "/a/..%2F%2Fb^"}
+	"/%2Fevil.com/^", "/%2fevil.com/\u00e9", "%2F%2Fevil.com/|", "http:/%2Fevil.com/^", "/%2Fevil.com\"", "/%2F/evil.com/{}", "/a/..%2F%2Fb^",
+	// hrefs net/url rejects
+	"http://example.com/sale-100%", "http://example.com/%zz", "https://a.b/\x7f", "//cdn.x/%", "/local/100%"}
 var targetPool = []string{"_blank", "_self", "foo", "_BLANK", "", "_blank ", "_top"}
 
 func genC11(t *rapid.T) *Case {
@@ -76,6 +78,11 @@ func genC11(t *rapid.T) *Case {
 			b := rapid.Bool().Draw(t, "first")
 			spec.Ops = append(spec.Ops, nr(Op{Kind: k, B: b}), nr(Op{Kind: k, B: !b}))
 		}
+	}
+	if rapid.IntRange(0, 5).Draw(t, "rawURLs") == 0 {
+		// every link option switches URL parsing on; the user may switch it off again, hrefs are
+		// then kept as written, including those net/url cannot parse
+		spec.Ops = append(spec.Ops, nr(Op{Kind: "RequireParseableURLs", B: false}))
 	}
 	switch rapid.IntRange(0, 7).Draw(t, "c11base") {
 	case 0:
